@@ -12,7 +12,16 @@ import tempfile
 
 from . import coqio
 
-FIELDS = ["a", "b", "c", "d", "e", "f", "g"]
+NAME_SETS = [["a", "b", "c", "d", "e", "f", "g"],
+             # names that are prefixes / substrings of one another (x in x_scale, xs; in_file in in_files; file in
+             # in_file, in_files; scale in x_scale)
+             ["x", "x_scale", "in_file", "in_files", "xs", "file", "scale"]]
+FIELDS = list(NAME_SETS[0])
+
+
+def use_names(k):
+    """switch the field names (and the task tag_task() returns) to NAME_SETS[k]"""
+    FIELDS[:] = NAME_SETS[k]
 
 
 # ---------------------------------------------------------------- trees
@@ -313,29 +322,43 @@ def run_state(t, shapes, combiner=None):
 
 
 # ---------------------------------------------------------------- running the implementation: end to end
-_TAG = None
+_TAGS = {}
 
 
 def tag_task():
-    """a python task with seven int fields that returns (and logs) all its inputs"""
-    global _TAG
-    if _TAG is None:
+    """a python task with seven untyped fields (named FIELDS) that returns (and logs) all its inputs"""
+    key = tuple(FIELDS)
+    if key not in _TAGS:
         import typing as ty
         from pydra.compose import python
+        if key == tuple(NAME_SETS[0]):
+            @python.define
+            def Tag(a: ty.Any = -1, b: ty.Any = -2, c: ty.Any = -3, d: ty.Any = -4, e: ty.Any = -5, f: ty.Any = -6,
+                    g: ty.Any = -7) -> list:
+                # pydra may run a pickled copy of this function, so executions are counted through a file
+                import os
+                vals = [a, b, c, d, e, f, g]
+                path = os.environ.get("VERIF_BODY_LOG")
+                if path:
+                    with open(path, "a") as fh:
+                        fh.write(repr(vals) + "\n")
+                return vals
+            _TAGS[key] = Tag
+        else:
+            assert key == tuple(NAME_SETS[1])
 
-        @python.define
-        def Tag(a: ty.Any = -1, b: ty.Any = -2, c: ty.Any = -3, d: ty.Any = -4, e: ty.Any = -5, f: ty.Any = -6,
-                g: ty.Any = -7) -> list:
-            # pydra may run a pickled copy of this function, so executions are counted through a file
-            import os
-            vals = [a, b, c, d, e, f, g]
-            path = os.environ.get("VERIF_BODY_LOG")
-            if path:
-                with open(path, "a") as fh:
-                    fh.write(repr(vals) + "\n")
-            return vals
-        _TAG = Tag
-    return _TAG
+            @python.define
+            def Tag2(x: ty.Any = -1, x_scale: ty.Any = -2, in_file: ty.Any = -3, in_files: ty.Any = -4, xs: ty.Any = -5,
+                     file: ty.Any = -6, scale: ty.Any = -7) -> list:
+                import os
+                vals = [x, x_scale, in_file, in_files, xs, file, scale]
+                path = os.environ.get("VERIF_BODY_LOG")
+                if path:
+                    with open(path, "a") as fh:
+                        fh.write(repr(vals) + "\n")
+                return vals
+            _TAGS[key] = Tag2
+    return _TAGS[key]
 
 
 CONST = [-1, -2, -3, -4, -5, -6, -7]
@@ -399,3 +422,48 @@ def run_e2e(t, shapes, combiner=None, tmp_root=None, cache_root=None):
             os.unlink(body_log)
         except OSError:
             pass
+
+
+VALUE_POOL = [None, 0, 1, "", "s", False, True, 0.0, [], [1, 2], [None], (), {"k": 1}, None, 7, 7, "s", -1]
+
+
+def run_e2e_values(t, values, tmp_root=None):
+    """Task.split over arbitrary element values (values[f] = the list for field f): returns dict(out=list of per-job
+    input lists or None, exc=..., bodies=int)"""
+    from pydra.engine.submitter import Submitter
+    Tag = tag_task()
+    fs = sorted(leaves(t))
+    tmp = tempfile.mkdtemp(prefix="verif_state_", dir=tmp_root)
+    fd, body_log = tempfile.mkstemp(prefix="verif_bodies_", dir=tmp_root)
+    os.close(fd)
+    os.environ["VERIF_BODY_LOG"] = body_log
+    res = dict(out=None, exc=None, bodies=0)
+    try:
+        try:
+            task = Tag().split(copy.deepcopy(to_py(t)), **{FIELDS[f]: copy.deepcopy(values[f]) for f in fs})
+            with Submitter(worker="debug", cache_root=tmp) as sub:
+                r = sub(task)
+            res["out"] = [list(j) for j in r.outputs.out]
+        except Exception as e:  # noqa: BLE001
+            res["exc"] = "%s: %s" % (type(e).__name__, str(e)[:300])
+        with open(body_log) as fh:
+            res["bodies"] = sum(1 for _ in fh)
+        return res
+    finally:
+        os.environ.pop("VERIF_BODY_LOG", None)
+        shutil.rmtree(tmp, ignore_errors=True)
+        try:
+            os.unlink(body_log)
+        except OSError:
+            pass
+
+
+def same_value(a, b):
+    """equality that tells None, 0, False, 0.0, "" and containers apart"""
+    if type(a) is not type(b):
+        return False
+    if isinstance(a, (list, tuple)):
+        return len(a) == len(b) and all(same_value(x, y) for x, y in zip(a, b))
+    if isinstance(a, dict):
+        return sorted(a) == sorted(b) and all(same_value(a[k], b[k]) for k in a)
+    return a == b
